@@ -57,15 +57,19 @@ Ctx(n) == [cur |-> {n}, pos |-> 1, size |-> 1]
 FirstStr(v) == IF v.ids = <<>> THEN <<>> ELSE v.strs[CHOOSE i \in 1..Len(v.ids) : \A j \in 1..Len(v.ids) : v.ids[i] <= v.ids[j]]
 IsNodes(v) == v.t \in {"ns", "fns"}
 NoNodes(v) == IF v.t = "ns" THEN v.v = {} ELSE v.ids = <<>>
+\* The relative order of the namespace nodes of ONE element is implementation-dependent (XPath 1.0 section 5.4): when
+\* the first node of a set is such a node and the set holds another namespace node of the same element, "the first
+\* node in document order" - and with it the string / number value of the set - is not determined
+FirstAmbiguous(d, S) == LET m == MinOf(S) IN d[m].k = "ns" /\ \E x \in S \ {m} : d[x].k = "ns" /\ d[x].p = d[m].p
 ToStr(d, v) ==
-  CASE v.t = "ns" -> IF v.v = {} THEN <<>> ELSE StringValue(d, MinOf(v.v))
+  CASE v.t = "ns" -> IF v.v = {} THEN <<>> ELSE IF FirstAmbiguous(d, v.v) THEN UnkStr ELSE StringValue(d, MinOf(v.v))
     [] v.t = "fns" -> FirstStr(v)
     [] v.t = "num" -> NumToStr(v.v)
     [] v.t = "bool" -> IF v.v THEN <<"t", "r", "u", "e">> ELSE <<"f", "a", "l", "s", "e">>
     [] v.t = "str" -> v.v
     [] v.t = "numstr" -> UnkStr         \* the spelling is not determined, only its obligations
 ToNum(d, v) ==
-  CASE v.t \in {"ns", "fns"} -> StrToNum(ToStr(d, v))
+  CASE v.t \in {"ns", "fns"} -> IF IsUnkStr(ToStr(d, v)) THEN Unk ELSE StrToNum(ToStr(d, v))
     [] v.t = "num" -> v.v
     [] v.t = "bool" -> IF v.v THEN NInt(1) ELSE NInt(0)
     [] v.t = "str" -> StrToNum(v.v)
@@ -237,13 +241,13 @@ CallBuiltin(d, env, name, args, ctx) ==
          IF n # 1 THEN Bad ELSE IF A(1).t # "ns" THEN Err("count-non-nodeset") ELSE NumV(NInt(Cardinality(A(1).v)))
     [] name = <<"l","o","c","a","l","-","n","a","m","e">> ->
          IF n > 1 THEN Bad ELSE LET s == IF n = 1 THEN A(1) ELSE CtxNS(ctx) IN
-         IF s.t # "ns" THEN Bad ELSE StrV(IF s.v = {} THEN <<>> ELSE LocalNameOf(d, MinOf(s.v)))
+         IF s.t # "ns" THEN Bad ELSE IF s.v # {} /\ FirstAmbiguous(d, s.v) THEN Err("unk") ELSE StrV(IF s.v = {} THEN <<>> ELSE LocalNameOf(d, MinOf(s.v)))
     [] name = <<"n","a","m","e","s","p","a","c","e","-","u","r","i">> ->
          IF n > 1 THEN Bad ELSE LET s == IF n = 1 THEN A(1) ELSE CtxNS(ctx) IN
-         IF s.t # "ns" THEN Bad ELSE StrV(IF s.v = {} THEN <<>> ELSE NamespaceUriOf(d, MinOf(s.v)))
+         IF s.t # "ns" THEN Bad ELSE IF s.v # {} /\ FirstAmbiguous(d, s.v) THEN Err("unk") ELSE StrV(IF s.v = {} THEN <<>> ELSE NamespaceUriOf(d, MinOf(s.v)))
     [] name = <<"n","a","m","e">> ->
          IF n > 1 THEN Bad ELSE LET s == IF n = 1 THEN A(1) ELSE CtxNS(ctx) IN
-         IF s.t # "ns" THEN Bad ELSE StrV(IF s.v = {} THEN <<>> ELSE ExpandedName(d, MinOf(s.v)))
+         IF s.t # "ns" THEN Bad ELSE IF s.v # {} /\ FirstAmbiguous(d, s.v) THEN Err("unk") ELSE StrV(IF s.v = {} THEN <<>> ELSE ExpandedName(d, MinOf(s.v)))
     [] name = <<"s","t","r","i","n","g">> ->
          IF n > 1 THEN Bad
          \* for a number beyond the digit-exact range the specification states the obligation instead of the spelling:
